@@ -6,6 +6,9 @@ import (
 	"github.com/ipld/go-ipld-prime/datamodel"
 )
 
+// maxEnumeratedRange is the widest range whose indices are enumerated as interests.
+const maxEnumeratedRange = 1024
+
 // ExploreRange traverses a list, and for each element in the range specified,
 // will apply a next selector to those reached nodes.
 type ExploreRange struct {
@@ -80,13 +83,18 @@ func (pc ParseContext) ParseExploreRange(n datamodel.Node) (Selector, error) {
 		return nil, err
 	}
 	x := ExploreRange{
-		selector,
-		startValue,
-		endValue,
-		make([]datamodel.PathSegment, 0, endValue-startValue),
+		next:  selector,
+		start: startValue,
+		end:   endValue,
 	}
-	for i := startValue; i < endValue; i++ {
-		x.interest = append(x.interest, datamodel.PathSegmentOfInt(i))
+	// The bounds come from an untrusted selector document: only enumerate the indices of
+	// small ranges. For anything larger the interest list stays nil, which means "propose
+	// every segment to Explore" (see Selector.Interests); Explore filters by the range.
+	if width := uint64(endValue) - uint64(startValue); width <= maxEnumeratedRange {
+		x.interest = make([]datamodel.PathSegment, 0, width)
+		for i := startValue; i < endValue; i++ {
+			x.interest = append(x.interest, datamodel.PathSegmentOfInt(i))
+		}
 	}
 	return x, nil
 }
